@@ -30,19 +30,27 @@ def gen_acl(rnd, d=0):
     for h in rnd.sample(HEADS, rnd.randint(1, 4)):
         toks = [h] + [rnd.choice(["*", "lx"]) for _ in range(rnd.randint(0, 2))]
         if rnd.chance(20):
-            toks.append("~")
+            if len(toks) == 1:
+                toks.append("*")      # the exact text '<head> ~' is reserved for the head-specific %global rules below: a local and a
+            toks.append("~")          # global rule with one text are merged into a single global rule by the ACL compiler
         ch = []
         x = rnd.randint(0, 99)
         if d < 2 and x < 35:
             ch = gen_acl(rnd, d + 1)
         elif d < 2 and x < 50:
             ch = [RA.acl_rule(["~"], glob=True)]
-        rules.append(RA.acl_rule(toks, ch, cd=rnd.choice([None, None, 0, 1])))
+        rules.append(RA.acl_rule(toks, ch, cd=rnd.choice([None, None, 0, 1]), icase=rnd.chance(12)))
         if d < 2 and rnd.chance(20):
             # a second, partially overlapping local rule for the same head with its own children (union of children applies)
             rules.append(RA.acl_rule([h, rnd.choice(["lx", "a", "*", "*/[a-z]+/", "*/[0-9]+/", "*/[a-z]+/"])] + (["~"] if rnd.chance(30) else []),
                                      gen_acl(rnd, d + 1) if rnd.chance(70) else [],
                                      cd=rnd.choice([None, 0, 1])))
+    if rnd.chance(10) and rules:
+        # a catch-all %global for one head ('interface ~ %global'): same specificity as the local wildcard rule of that head on plain
+        # alphanumeric rows, the local rule (listed first) governs and its children rules still apply
+        gh = rnd.choice(rules)["toks"][0]
+        if not any(r["toks"] == [gh, "~"] for r in rules):
+            rules.append(RA.acl_rule([gh, "~"], glob=True))
     if d > 0 and rnd.chance(15):
         rules.append(RA.acl_rule(["glit"], glob=True))
     if d == 0 and rnd.chance(4):
@@ -55,6 +63,8 @@ def _inst(rnd, toks):
     for tk in toks:
         if tk == "*":
             w.append(rnd.choice(["lx", "a", "b", "1"]))
+        elif tk.startswith("*/"):
+            w.append(rnd.choice(["a", "b", "lx"]) if "a-z" in tk else rnd.choice(["1", "7"]))   # a word the placeholder regex accepts
         elif tk == "~":
             w += [rnd.choice(["lx", "a", "b"]) for _ in range(rnd.randint(1, 2))]
         else:
@@ -77,6 +87,8 @@ def gen_tree(rnd, d=0, jun=False, rules=()):
         else:
             h = rnd.choice(HEADS + ["zzz", "glit"])
             row = " ".join([h] + [rnd.choice(["lx", "a", "b", "1"]) for _ in range(rnd.randint(0, 3))])
+        if rnd.chance(8):
+            row = row.upper() if rnd.chance(50) else row.capitalize()   # differs from the rule words only by letter case
         if jun and rnd.chance(20):
             row = "inactive: " + row
         t[row] = gen_tree(rnd, d + 1, jun, sub) if d < 3 and rnd.chance(55) else odict()
@@ -96,7 +108,8 @@ def _cases(draw):
     rnd = draw(urandoms())
     vendor = rnd.choice(["huawei", "cisco", "juniper"])
     a, b = gen_acl(rnd), gen_acl(rnd)
-    return {"vendor": vendor, "A": a, "B": b, "tree": plain(gen_tree(rnd, jun=(vendor == "juniper"), rules=a + b))}
+    return {"vendor": vendor, "A": a, "B": b, "tree": plain(gen_tree(rnd, jun=(vendor == "juniper"), rules=a + b)),
+            "acl_indents": [rnd.choice([0, 4, 8]), rnd.choice([0, 4, 12])]}
 
 
 def strategy(tier):
@@ -161,7 +174,10 @@ def check(case):
         if any(k.startswith("inactive: ") for k in _all_rows(got)):
             labels.append("jun-inactive-kept")
     named = [("A", case["A"]), ("B", case["B"])]
-    ctext = RA.combined_text(named)
+    ctext = sut.production_acl_text(named, case.get("acl_indents"))
+    if ctext != RA.combined_text(named):
+        raise Violation("acl-merge-text", "the combined ACL text differs from 'every line of every generator, dedented, tagged'",
+                        {"got": ctext, "expected": RA.combined_text(named)})
     ab = apply_acl(t, compile_acl_text(ctext, vendor))
     expab = RA.ref_filter(t, RA.ACtx.top(named, norm))
     det = {"acl": ctext, "got": plain(ab), "expected": plain(expab)}
